@@ -180,6 +180,42 @@ pub fn c13(c: &Case, rep: &mut Report) {
         rep.count("cases-with-synthetic-names-switched-on", 1);
     }
     let mut total_checked = 0u64;
+    // ---- in the IR right after parsing (what later edits build on): every local the input names carries that
+    // name, whether or not the body mentions it
+    if let Some(lines) = end.str("onparse.localnames") {
+        let mut got: HashMap<(u32, u32), String> = HashMap::new();
+        for l in lines.lines() {
+            let mut it = l.splitn(3, ' ');
+            if let (Some(f), Some(j), Some(n)) = (it.next().and_then(|x| x.parse().ok()), it.next().and_then(|x| x.parse().ok()), it.next()) {
+                got.insert((f, j), n.to_string());
+            }
+        }
+        for (f, v) in &nin.locals {
+            let nparams = din.sig_of_func(*f).map(|s| s.params.len()).unwrap_or(0) as u32;
+            let nlocals = din.funcs.get(*f as usize).and_then(|x| x.body.as_ref()).map(|b| b.locals.len()).unwrap_or(0) as u32;
+            if din.funcs.get(*f as usize).map(|x| x.body.is_none()).unwrap_or(true) {
+                continue;
+            }
+            // the last entry for an index wins
+            let mut last: HashMap<u32, &String> = HashMap::new();
+            for (j, n) in v {
+                last.insert(*j, n);
+            }
+            for (j, n) in last {
+                if j >= nparams + nlocals || (synth && n.is_empty()) {
+                    continue;
+                }
+                total_checked += 1;
+                rep.count("local-names-checked-in-the-parsed-ir", 1);
+                match got.get(&(*f, j)) {
+                    Some(g) if g == n => {}
+                    other => {
+                        rep.violation(c, "C13/local-name-not-attached-after-parse", &format!("function {} local {} is named {:?} by the input; right after parsing the local carries {:?}", f, j, n, other), &[]);
+                    }
+                }
+            }
+        }
+    }
     for label in ["emit", "gc"] {
         let out = match end.get(&format!("out.{}", label)) {
             Some(o) => o,
